@@ -125,6 +125,64 @@ def mon_c08(run, world):
         if int(r[3]) != placed or int(r[4]) != unplaced:
             bad.append("SCHEDULER_FINISHED row at %s reports %s placed / %s unplaced, the decisions had %d / %d" %
                        (r[0], r[3], r[4], placed, unplaced))
+    # ---- graph rows
+    ginfo = {}
+    for e in log:
+        if e[0] == "graph":
+            ginfo[e[1]["graph"]] = e[1]
+    gdl0 = {g[0]: g[3] for g in run["graphs"]}
+    for r in rows:
+        if len(r) > 6 and r[1] == "TASK_GRAPH_RELEASE":
+            gi = ginfo.get(r[4])
+            if gi is None:
+                bad.append("TASK_GRAPH_RELEASE row for unknown graph %s" % r[4])
+                continue
+            if int(r[2]) != gi["release"] or int(r[3]) != gi["deadline"] or int(r[5]) != len(gi["tasks"]):
+                bad.append("TASK_GRAPH_RELEASE row of %s reports release %s deadline %s tasks %s, the graph has %s %s %s"
+                           % (r[4], r[2], r[3], r[5], gi["release"], gi["deadline"], len(gi["tasks"])))
+        elif len(r) > 4 and r[1] == "TASK_GRAPH_FINISHED":
+            dl = gdl0.get(r[2])
+            if dl is not None:
+                tard = max(0, int(r[0]) - dl)
+                if int(r[3]) != dl or int(r[4]) != tard:
+                    bad.append("TASK_GRAPH_FINISHED row of %s at %s reports deadline %s tardiness %s, truth %s %s"
+                               % (r[2], r[0], r[3], r[4], dl, tard))
+    missed_g_rows = {r[2] for r in rows if len(r) > 2 and r[1] == "MISSED_TASK_GRAPH_DEADLINE"}
+    # every task finished after its graph's deadline produces the row; a graph none of whose tasks finished late has none
+    late_graphs = set()
+    for name, e in finishes.items():
+        g = name.split("@", 1)[1]
+        if g in gdl0 and e[6][0] > gdl0[g]:
+            late_graphs.add(g)
+    if missed_g_rows != late_graphs:
+        bad.append("MISSED_TASK_GRAPH_DEADLINE rows for %s, graphs with a task finishing after the graph deadline: %s"
+                   % (sorted(missed_g_rows)[:4], sorted(late_graphs)[:4]))
+    # ---- TASK_SCHEDULED rows against the placed decisions, TASK_SKIP rows against the unplaced ones
+    sched_rows = [r for r in rows if len(r) > 9 and r[1] == "TASK_SCHEDULED"]
+    placed_decs = [(d[1], x) for d in decs for x in d[2] if x[0] == "PLACE_TASK" and x[3] is not None]
+    if len(sched_rows) != len(placed_decs):
+        bad.append("%d TASK_SCHEDULED rows for %d placed decisions" % (len(sched_rows), len(placed_decs)))
+    for r, (tm, x) in zip(sched_rows, placed_decs):
+        name = "%s@%s" % (r[2], r[3])
+        if name != x[1] or int(r[0]) != tm or int(r[7]) != x[5] or (x[7] is not None and int(r[9]) != x[7]):
+            bad.append("TASK_SCHEDULED row %s does not match the decision %s at %s" % (r[:10], x, tm))
+            break
+    # ---- utilisation rows: allocated + available = total, and allocated equals what the ledger reported last
+    totals = {}
+    for e in log:
+        if e[0] == "cluster":
+            for pool in e[1]:
+                agg = {}
+                for (_w, res) in pool[2]:
+                    for (rn, _i, q) in res:
+                        agg[rn] = agg.get(rn, 0) + q
+                totals[pool[1]] = agg
+    for r in rows:
+        if len(r) > 5 and r[1] == "WORKER_POOL_UTILIZATION":
+            tot = totals.get(r[2], {}).get(r[3])
+            if tot is not None and int(float(r[4])) + int(float(r[5])) != tot:
+                bad.append("WORKER_POOL_UTILIZATION row %s: allocated + available != total %s" % (r, tot))
+                break
     # ---- end-of-run summary
     end = [r for r in rows if len(r) > 1 and r[1] == "SIMULATOR_END"]
     if len(end) != 1:
